@@ -46,6 +46,11 @@ def generate(rng, tier, index):
         m.pop("sigma_e_tier", None)
     else:
         m["sigma_e_max"] = 2.5e-3
+        # conductive also means magnetically conductive (per-step loss factor up to ~0.2, as in C02); a checkpoint at every
+        # step is taken for these scenes, as the statement says
+        if m.get("mu_tier") in ("iso", "diag") and rng.uniform() < 0.6:
+            m["sigma_h_tier"] = specgen.choice(rng, ["iso", "diag"])
+            m["sigma_h_max"] = 300.0
     # fully anisotropic (9-component) lossless tensors: only in scenes without absorbing layers - next to a PML the reverse
     # pass is off for full tensors (known finding C03-full-tensor-next-to-pml), which would mask everything else
     no_pml = not any(f["kind"] == "pml" for f in spec["faces"].values())
